@@ -6,7 +6,7 @@
    DoltDB.Resolve.  Ids are creation indices; the address order is exported as
    a rank table. *)
 From Coq Require Import NArith List Arith Bool.
-From Dolt Require Import Base.Str Graph.CommitDag C18.Model C18.Corr C44.Model C19.Model C19.Spec.
+From Dolt Require Import Base.Str Graph.CommitDag C18.Model C18.Corr C44.Model C19.Model C19.HeapModel C19.Spec.
 Import ListNotations.
 
 (* ((parents lists, rank), ordered pairs), specs ((start commit, base name bytes), suffix bytes);
@@ -62,7 +62,7 @@ Definition model_obs (i : input) : obs :=
   let s := store_of (in_rank i) (in_hist i) in
   let rk := in_rank i in
   {| o_mb := map (fun p => enc_mb (find_common_ancestor rk s (fst p) (snd p))) (in_pairs i);
-     o_mbp := map (fun p => enc_mb (mb_parents rk s (fst p) (snd p))) (in_pairs i);
+     o_mbp := map (fun p => enc_mb (mb_parents_heap rk s (fst p) (snd p))) (in_pairs i);   (* container/heap model *)
      o_mbd := map (fun p => enc_mb (find_common_ancestor rk s (fst p) (snd p))) (in_pairs i);
      o_ff := map (fun p => enc_ff (can_ff rk s (fst p) (snd p))) (in_pairs i);
      o_specs := map (fun sp => resolve_model s (fst sp) (snd sp)) (in_specs i) |}.
